@@ -34,12 +34,25 @@ thread_local! {
     static CURRENT: RefCell<Option<(&'static Scenario, RunInput)>> = const { RefCell::new(None) };
     static PANICS: RefCell<Vec<String>> = const { RefCell::new(Vec::new()) };
     static AFTER_TEARDOWN: RefCell<Vec<Box<dyn FnOnce()>>> = const { RefCell::new(Vec::new()) };
+    /// a violation found by work that runs after the runtime of the run has been dropped
+    static LATE_VIOLATION: RefCell<Option<Violation>> = const { RefCell::new(None) };
 }
 
 /// Register work (and values to keep alive) for after the runtime of this run has been dropped:
 /// "tearing down the runtime with handles still alive".
 pub fn after_runtime_teardown(f: Box<dyn FnOnce()>) {
     AFTER_TEARDOWN.with(|a| a.borrow_mut().push(f));
+}
+
+/// Report a violation from a closure registered with [`after_runtime_teardown`] (the run's own
+/// verdict has been collected by then).
+pub fn late_violation(class: &str, key: &str, msg: String) {
+    LATE_VIOLATION.with(|l| {
+        let mut l = l.borrow_mut();
+        if l.is_none() {
+            *l = Some(Violation { class: class.into(), key: key.into(), msg });
+        }
+    });
 }
 
 pub fn install_panic_hook() {
@@ -147,6 +160,7 @@ pub fn execute(scen: &'static Scenario, input: RunInput) -> RunOutput {
     take_panics();
     CURRENT.with(|c| *c.borrow_mut() = Some((scen, input.clone())));
     AFTER_TEARDOWN.with(|a| a.borrow_mut().clear());
+    LATE_VIOLATION.with(|l| *l.borrow_mut() = None);
     anemo::verif::set_active(true);
     crate::vclock::activate();
     let sched = SchedMode::for_run(&input);
@@ -199,6 +213,11 @@ pub fn execute(scen: &'static Scenario, input: RunInput) -> RunOutput {
             out
         }
     };
+    if let Some(v) = LATE_VIOLATION.with(|l| l.borrow_mut().take()) {
+        if out.violation.is_none() {
+            out.violation = Some(v);
+        }
+    }
     if dropped.is_err() && out.violation.is_none() {
         out.violation = Some(Violation {
             class: "panic-in-runtime-teardown".into(),
